@@ -1002,6 +1002,66 @@ def run(ctx, anchors=None):
             ctx.ok("R15.13", key + ":reviewed", fs[0].loc(), why)
     ctx.floor("R15.13", len(sccs), 3, "recursion cycles in the call graph")
 
+    # ---- R15.14 contradiction rule for constant subscripts: where a function itself decides the size of a container (a rejecting
+    # `size() != K`, an equality in a condition), a constant subscript on a path that decided size == K must be < K. Paths are
+    # enumerated by G-SYM for the functions that contain both a size equality and a constant subscript on the same container.
+    ctx.rule("R15.14", "a constant subscript is smaller than the size the same path decided for the container")
+    ncs14 = 0
+    skipped14 = []
+    for f in sorted(fb.funcs.values(), key=lambda f_: f_.id):
+        if not auth(f) or f.d.get("main") or len(f.nodes()) > 2500:
+            continue
+        sized, subs = set(), set()
+        for n in f.nodes():
+            if n["k"] == "bin" and n["op"] in ("==", "!=") and (astq.const_value(n["lhs"]) is not None or astq.const_value(n["rhs"]) is not None):
+                o_ = n["rhs"] if astq.const_value(n["lhs"]) is not None else n["lhs"]
+                while o_ is not None and o_.get("k") in ("cast", "paren"):
+                    o_ = o_["e"]
+                if o_ is not None and o_.get("k") == "mcall" and o_.get("n") == "size" and o_.get("obj") is not None:
+                    sized.add(astq.estr(o_["obj"]))
+            b_ = i_ = None
+            if n["k"] == "opcall" and n.get("op") == "[]" and len(n.get("args", [])) == 2:
+                b_, i_ = n["args"]
+            elif n["k"] == "mcall" and n.get("n") == "at" and n.get("args"):
+                b_, i_ = n.get("obj"), n["args"][0]
+            if b_ is not None and i_ is not None and astq.const_value(i_) is not None:
+                subs.add(astq.estr(b_))
+        if not (sized & subs):
+            continue
+        X = _sx.Explorer(prog, inline=lambda fn, n_: False, transparent=lambda n_: True)
+        try:
+            outs = X.explore(f, this=("a", "this"), limit=3000)
+        except _sx.Unsupported as e:
+            skipped14.append("%s: %s" % (f.name, str(e)[:50]))
+            continue
+        bad14 = None
+        npaths = 0
+        for o in outs:
+            sizes = {}
+            for (t, v) in o.conds:
+                if isinstance(t, tuple) and t[0] == "eq" and v:
+                    for a, b in ((t[1], t[2]), (t[2], t[1])):
+                        if _sx.is_const(b) and isinstance(a, tuple) and a[:2] == ("ap", "m:size"):
+                            sizes[a[2]] = b[1]
+            if not sizes:
+                continue
+            npaths += 1
+            terms = [t for (t, v) in o.conds] + [x for e in o.events for x in e.terms] + list(o.store.values()) + list(o.heap.values())
+            for t in terms:
+                for y in _sx.subterms(t):
+                    if isinstance(y, tuple) and y[0] == "ap" and y[1] in ("[]", "m:at") and len(y) == 4 and _sx.is_const(y[3]) and y[2] in sizes:
+                        if y[3][1] >= sizes[y[2]]:
+                            bad14 = (_sx.show(y)[:60], sizes[y[2]])
+        if not npaths:
+            continue
+        ncs14 += 1
+        ctx.site(npaths)
+        ctx.inst(bad14 is None, "R15.14", "subscript-within-decided-size@" + f.name, f.loc(),
+                 "on the %d path(s) of %s that decide a container's size every constant subscript of it is smaller" % (npaths, f.name),
+                 "%s reads %s on a path that decided the container has %s element(s)" % ((f.name, bad14[0], bad14[1]) if bad14 else (f.name, "", "")))
+    ctx.extra["R15.14_not_explored"] = skipped14
+    ctx.floor("R15.14", ncs14, 2, "functions deciding a container size and subscripting it with constants")
+
     # ---------------------------------------------------------------- R15.9
     ev = fb.fn("Instance::eval", file="instance.cpp")
     opstep = fb.fn("StepScript", file="script/interpreter.cpp")
@@ -1216,6 +1276,7 @@ def callers_establish(fb, prog, ctor, a, K):
 
 
 MUTANTS = [
+    dict(name="subscript-beyond-accepted-length", file="value.h", find="        if (data.size() != 25) {", replace="        if (data.size() != 25 && data.size() != 23) {", expect=["R15.14:subscript-within-decided-size@Value::do_spk_to_addr"]),
     dict(name="nesting-limit-removed", file="value.h", find="                    if (depth > MAX_BRACKET_DEPTH) {\n                        fprintf(stderr, \"parse error, [brackets nested more than %zu deep\\n\", MAX_BRACKET_DEPTH);\n                        exit(1);\n                    }\n", replace="", expect=["R15.13:cycle=Value::Value+Value::parse_args:nesting-limit"]),
     dict(name="token-array-on-the-stack", file="value.h", find="        std::vector<char*> args_ptr;\n", replace="        char* args_ptr_[args_len + 1];\n        std::vector<char*> args_ptr;\n        args_ptr_[0] = nullptr;\n", expect=["R15.13:cycle=Value::Value+Value::parse_args:no-vla-across-recursion"]),
     dict(name="new-recursion-unreviewed", file="instance.cpp", find="bool Instance::rewind() {\n    if (env->pc == env->script.begin()) {\n        return false;\n    }", replace="bool Instance::rewind() {\n    if (env->pc == env->script.begin()) {\n        return false;\n    }\n    if (env->done && env->curr_op_seq > 100000) return rewind();", expect=["R15.13:cycle=Instance::rewind"]),
